@@ -240,7 +240,9 @@ class FortranGen:
                      1.0 if "<state>r" in self.types and depth >= 2 else 0,   # 17 array overwritten with other length
                      0.9,                    # 18 user function with two user-type results
                      1.0 if "<state>r" in self.types else 0,   # 19 scalar assigned an integer and a real
-                     0.8]                    # 20 user function returning (scalar, user type)
+                     0.8,                    # 20 user function returning (scalar, user type)
+                     1.5 if ("<state>v" in self.types and "<state>r" in self.types) else 0,   # 21 one built-in, both user types
+                     1.0 * c12]              # 22 read, rebind, read again
                 k = t.weighted(w, "opkind")
                 op = self.gen_op(k, D, depth)
                 if op is None:
@@ -518,6 +520,48 @@ class FortranGen:
                     kws.reverse()
                 return ("call", (tgt,), Call("<builtin>matmul", [Var(a), Var(a)], kws), self.mode())
             return ("call", (tgt,), Call("<builtin>matmul", [Var(a), Var(a), Const(c), Const(r)]), self.mode())
+        if k == 22:
+            # a user-type temporary is read element-wise, bound to other storage, and read element-wise again
+            # in the same phase (whatever the generated code remembers about it from the first read is stale)
+            u = self.new_name(UT_TEMPS, "ut", D, reuse_p=0.0)
+            t1 = self.new_name([n for n in UT_TEMPS if n != u], "ut", D)
+            if u is None or t1 is None or u in D or u == t1:
+                return None
+            srcs = [x for x in uts if x not in (u, t1)] or ["<state>y"]
+            s1, s2 = self.pick(srcs, "rb1"), self.pick(srcs, "rb2")
+            D.add(u)
+            D.add(t1)
+            first = ("assign", u, None, Bin("+", Var(s1), Bin("*", Const(0.5), Var(s2))), [], self.mode())
+            read1 = ("assign", t1, None, Bin("+", Var(u), Bin("*", self.g_scal_factor(D), Var(s1))), [], self.mode())
+            if t.chance(0.5, "rebind_by_call"):
+                self.used_funcs.add("<func>f")
+                rebind = ("call", (u,), Call("<func>f", [Var("<t>"), Var(s2)]), self.mode())
+            else:
+                rebind = ("assign", u, None, Var(s2), [], self.mode())
+            read2 = ("assign", "<state>y", None,
+                     Bin("+", Var("<state>y"), Bin("*", Const(self.pick(DYADIC, "rbc")), Bin("+", Var(u), Var(t1)))), [],
+                     self.mode())
+            return [first, read1, rebind, read2]
+        if k == 21:
+            # the same built-in applied to a value of each user type (their lengths differ) in one phase, in
+            # either order; both results end up in persistent state
+            cands = [x for x in SC_TEMPS if self.cls.get(x, "inexact") == "inexact"]
+            r1 = self.new_name(cands, "real", D, reuse_p=0.0)
+            r2 = self.new_name([x for x in cands if x != r1], "real", D, reuse_p=0.0)
+            if r1 is None or r2 is None or r1 in D or r2 in D:
+                return None
+            self.cls[r1] = self.cls[r2] = "inexact"
+            D.add(r1)
+            D.add(r2)
+            fn = self.pick(["<builtin>norm_2", "<builtin>len", "<builtin>norm_2"], "bothfn")
+            uy = self.pick(uts, "bothy")
+            vs_ = self.of(D, "utv") or ["<state>v"]
+            uv = self.pick(vs_, "bothv")
+            calls = [("call", (r1,), Call(fn, [Var(uy)]), self.mode()), ("call", (r2,), Call(fn, [Var(uv)]), self.mode())]
+            if t.chance(0.5, "bothorder"):
+                calls.reverse()
+            return calls + [("assign", "<state>r", None, Bin("+", Var(r1), Bin("*", Const(10.0), Var(r2))), [],
+                             self.mode())]
         if k == 20:
             cands = [x for x in SC_TEMPS if self.cls.get(x, "inexact") == "inexact"]
             e_ = self.new_name(cands, "real", D)
